@@ -10,6 +10,8 @@ def main(argv):
     pp.run(rep, PID, common.pipeline_cfgs(rep, 'values'))
     # creation operators as functions of their parameters (Creation.tla), alone, behind Take(n), subscribed twice
     parts_creation.run(rep, PID, rep.tier == 'thorough')
+    # the reflective and the typed composition forms, every arity 1..25
+    parts_creation.run_pipeforms(rep, PID)
     # single-source operators with a higher-order output (GroupBy): groups observed at once, inner deliveries flattened (MultiDef.tla)
     parts_multi.run_single(rep, PID, rep.tier == 'thorough')
     rep.cov['rule'] = common.PIPE_RULE
@@ -22,7 +24,7 @@ def main(argv):
 def replay(path):
     vlib.build_harness()
     import json
-    if json.load(open(path))['replay'].get('module') == 'Creation':
+    if json.load(open(path))['replay'].get('module') in ('Creation', 'PipeForms'):
         return parts_creation.replay_case(PID, path)
     if json.load(open(path))['replay'].get('module') == 'MultiGen':
         return parts_multi.replay_case(PID, path)
